@@ -20,7 +20,7 @@ CHECKS = {
              "each one is replayed against the real library through stubs regenerated from /repo's templates; the recorded "
              "traces (hook events + stamped quorum-function invocations) are validated by TLC against CallsTrace.tla, "
              "all invariants evaluated in every trace state. Exhaustive over the bounded scenario family, not a proof for "
-             "all sizes.",
+             "all sizes."' In addition the composition Gorums.tla (one manager, all nodes, many concurrent calls: id allocation, issue loops, per-node request flow, server connections, handlers, receivers, routers, collection loops, outcomes) is checked by TLC at design level (GorumsMC) and free concurrent workloads (all 16 methods, 3 overlapping configurations, slow quorum functions, contexts ending at arbitrary instants, late/failing handlers, id jumps of 2^32-d) are recorded with every event of every layer and validated event by event against GorumsTrace.tla (C01: the quorum function is invoked once per consumed reply, with exactly the consumed replies, never after a quorum, also when replies pile up behind a slow invocation and the context ends).',
         ref="DESIGN.md 5 C01, 3.1",
         technique="TLA+ spec (Calls.tla) + TLC exhaustive; TLC-generated behaviours replayed on real code; TLC trace validation"),
     "C02": dict(
@@ -31,7 +31,7 @@ CHECKS = {
              "causes, context ended before the call) up to 3 (thorough 4) nodes replayed on the real library; outcome, "
              "error/reply counts, errors.Is classification and future stability (Get x3, Done) validated by TLC against "
              "CallsTrace.tla; a call that has not ended when the script is over is judged by the Quiescent rule "
-             "(no library step enabled in the specification).",
+             "(no library step enabled in the specification)."" In addition the composition Gorums.tla (one manager, all nodes, many concurrent calls: id allocation, issue loops, per-node request flow, server connections, handlers, receivers, routers, collection loops, outcomes) is checked by TLC at design level (GorumsMC) and free concurrent workloads (all 16 methods, 3 overlapping configurations, slow quorum functions, contexts ending at arbitrary instants, late/failing handlers, id jumps of 2^32-d) are recorded with every event of every layer and validated event by event against GorumsTrace.tla (C02: ok iff the last invocation reported a quorum, Incomplete iff every targeted node was consumed, a context error only after the context ended; the stub's result agrees).",
         ref="DESIGN.md 5 C02, 3.1",
         technique="TLA+ spec (Calls.tla) + TLC exhaustive; TLC-generated behaviours replayed on real code; TLC trace validation"),
     "C06": dict(
@@ -106,8 +106,9 @@ CHECKS["C03"] = dict(
          "start, and all-handled as preconditions of the HStart action over API-level events; TLC enumerates every ordered "
          "pair of call variants (16 methods x send-waiting x {all fast, one slow, one holding node} handler patterns x "
          "release order; thorough adds triples) and each program is executed on the real library with send buffer 0 and 2 "
-         "(quick: 900 seeded programs per setting); scenario fifo-across-stream-break (send buffer 8, first of five async/"
-         "one-way calls held before SendMsg, server restarted) is validated by the same monitor; TLC validates each recorded "
+         "(quick: 900 seeded programs per setting); scenarios fifo-across-stream-break (send buffer 8, first of five async/"
+         "one-way calls held before SendMsg, server restarted) and fifo-full-buffer (sender held, send buffer of 2 full, four "
+         "further invocations of each kind one after the other) are validated by the same monitor; TLC validates each recorded "
          "section against FifoTrace.tla. FifoPerConn/NoDoubleStart are checked exhaustively on Channel.tla.",
     ref="DESIGN.md 5 C03, 3.0 (Fifo), 3.2",
     note=PROG_NOTE,
@@ -119,7 +120,8 @@ CHECKS["C04"] = dict(
          "HReturn; TLC enumerates programs over every release style (on entry, implicit on return, late, x3, from three "
          "helper goroutines, failing handler, never) x handler kind (unary, stream, one-way) x a second call on the same "
          "or on another client connection, plus staged-release triples (A releases early, B holds, A releases again by "
-         "returning / explicitly / from goroutines, C must not start); all 1748 programs are executed with send buffer 0 and "
+         "returning / explicitly / from goroutines, C must not start) and holding stream handlers that send several items back "
+         "to back (sending is not releasing); all 1868 programs are executed with send buffer 0 and "
          "2; a second connection must complete while the first is held; a runtime fatal error of the driver process "
          "(e.g. unlock of unlocked mutex) is reported as violation.",
     ref="DESIGN.md 5 C04, 3.0 (Fifo), 3.2",
@@ -189,8 +191,8 @@ CHECKS["C05"] = dict(
          "that produced it for this call. Checked on 1596 TLC-enumerated programs (every call variant x ways of ending incl. "
          "late replies after return/cancel) x send buffer 0/2, and on free workloads (6 goroutines, three overlapping "
          "configurations, late replies, errors, cancellations at arbitrary instants); AtMostOneResponse etc. exhaustively on "
-         "Channel.tla.",
-    ref="DESIGN.md 5 C05, 3.0 (Routing), 3.2", note=PROG_NOTE, technique=ROUTE_TECH)
+         "Channel.tla."" In addition the composition Gorums.tla (one manager, all nodes, many concurrent calls: id allocation, issue loops, per-node request flow, server connections, handlers, receivers, routers, collection loops, outcomes) is checked by TLC at design level (GorumsMC) and free concurrent workloads (all 16 methods, 3 overlapping configurations, slow quorum functions, contexts ending at arbitrary instants, late/failing handlers, id jumps of 2^32-d) are recorded with every event of every layer and validated event by event against GorumsTrace.tla (C05: message ids never repeat, also across 2^32 calls; what a call consumed as node n's reply was delivered by n's channel, read by n's receiver, produced by n's handler for this id, started by a request written to n).",
+    ref="DESIGN.md 5 C05, 3.0 (Routing), 3.2, 3.5", note=PROG_NOTE, technique=ROUTE_TECH)
 CHECKS["C18"] = dict(
     engine="prog", category="model_checking",
     text="NoResidue: in Channel.tla a settled healthy node has an empty router table (exhaustive); on real executions the "
@@ -215,7 +217,7 @@ CHECKS["C07"] = dict(
          "once in the error list and never in a QF reply set, handler failures carry the handler's status code and message, "
          "connection failures do not, and at quiescence no call is waiting for a node whose server was stopped. "
          "ErrorsNameNodesOnce/FailedNotReplied/QFNoFailedNode are checked by TLC on Calls.tla; 'pending requests are failed "
-         "when the stream breaks' is checked exhaustively on Channel.tla (NoStrandedCall, C09).",
+         "when the stream breaks' is checked exhaustively on Channel.tla (NoStrandedCall, C09)."" In addition the composition Gorums.tla (one manager, all nodes, many concurrent calls: id allocation, issue loops, per-node request flow, server connections, handlers, receivers, routers, collection loops, outcomes) is checked by TLC at design level (GorumsMC) and free concurrent workloads (all 16 methods, 3 overlapping configurations, slow quorum functions, contexts ending at arbitrary instants, late/failing handlers, id jumps of 2^32-d) are recorded with every event of every layer and validated event by event against GorumsTrace.tla (C07: a failing node is consumed once, counts and node list of the returned error equal the specification's).",
     ref="DESIGN.md 5 C07", technique="TLA+ spec (Calls.tla) + TLC-enumerated fault behaviours replayed on real code with real "
                                       "server stops; TLC trace validation")
 
@@ -298,6 +300,9 @@ def main():
             {"name": "gen", "path": "tools/check_gen.py", "serves_properties": ["C16", "C17"],
              "kind_free_text": "TLC on specs/Gen.tla (GenGen lattice, GenTrace validation) + drive gen / drive regen (plugin "
                                "subprocess, batched go build, go/ast binding extraction)"},
+            {"name": "sys", "path": "tools/check_sys.py", "serves_properties": ["C01", "C02", "C05", "C07"],
+             "kind_free_text": "TLC on specs/Gorums.tla (GorumsMC exhaustive; GorumsTrace event-by-event validation of free "
+                               "workloads recorded by drive m3 with every event) - a phase of the calls and prog engines"},
             {"name": "calls", "path": "tools/check_calls.py",
              "serves_properties": ["C01", "C02", "C06", "C07", "C11"],
              "kind_free_text": "TLC on specs/Calls.tla (CallsMC exhaustive, CallsGen behaviour generator, CallsTrace trace "
